@@ -106,10 +106,17 @@ def run_case(c):
                                 x = d + datetime.timedelta(days=dd)
                                 dates.append((x.year, x.month, x.day))
                         prev = off
-            for (y, mo, d) in sorted(set(dates)):
+            # the days around every new year 2024..2030 (ISO week-years, leap years, year-dependent date formats), on a coarse
+            # minute grid; the other dates on every minute
+            coarse = set()
+            for y in range(2024, 2031):
+                for (mo, d) in ((12, 28), (12, 29), (12, 30), (12, 31), (1, 1), (1, 2), (1, 3), (1, 4)):
+                    if (y, mo, d) not in dates:
+                        coarse.add((y, mo, d))
+            for (y, mo, d) in sorted(set(dates) | coarse):
                 noon = int(time.mktime((y, mo, d, 12, 0, 0, 0, 0, -1)))
                 with fixed_today(noon):
-                    for minute in range(1440):
+                    for minute in (range(0, 1440, 97) if (y, mo, d) in coarse else range(1440)):
                         h, m = divmod(minute, 60)
                         v = f"{h:02d}:{m:02d}"
                         n += 1
